@@ -122,7 +122,8 @@ def main(tier, seed, replay):
     rng = random.Random(seed * 7919 + 1)
     V = core.Verdict(PID, tier, seed)
     V.coverage['rule'] = ('histories of 40-120 mixed calls (batched 3D/2D, convenience wrappers, output size, verbatim repeats, other worlds alive) on corpus and '
-                          'generated non-random worlds; non-trivial = batched call with >= 2 properties of which >= 1 multi-valued (grains k>=2 or velocity) at a point inside >= 1 feature')
+                          'generated non-random worlds; every stand-alone answer repeated with the world alone in a fresh process (bit-identical); '
+                          'non-trivial = batched call with >= 2 properties of which >= 1 multi-valued (grains k>=2 or velocity) at a point inside >= 1 feature')
     n_corpus, n_gen = (60, 140) if tier == 'quick' else (130, 2400)
     scale = 1 if tier == 'quick' else 2
     files = [p for p in corpus.world_files() if not corpus.is_random(p)]
@@ -153,8 +154,26 @@ def main(tier, seed, replay):
         cases.append(j[0])
         cases.append(j[1])
     core.run_cases('asan', cases, PID)
+    # the stand-alone answers once more, every world alone in a fresh process: no other world has ever been alive there, so
+    # state that outlives a world (function-local statics, globals) shows as a difference to the answers of the busy processes
+    iso = [core.Case('iso_%s' % j[1].cid, list(j[1].cmds)) for j in jobs]
+    core.run_cases('asan', iso, PID + '_iso', isolate=True)
     for (hist, dic, plan, dplan, fresh, label) in jobs:
         check_world(V, hist, dic, plan, dplan, fresh, label)
+    for (j, ic) in zip(jobs, iso):
+        dic, label = j[1], j[5]
+        if ic.crash:
+            V.crash(ic, label)
+            continue
+        if dic.crash or not dic.results or not ic.results:
+            continue
+        for k, (a, b) in enumerate(zip(dic.results, ic.results)):
+            if a[0] == 'missing' or b[0] == 'missing':
+                continue
+            V.count()
+            if a[0] != b[0] or (a[0] == 'ok' and a[1] != b[1]):
+                V.violation('answer-depends-on-worlds-that-lived-earlier-in-the-process', {'world': label, 'command': dic.cmds[k], 'in_a_busy_process': a, 'alone_in_a_fresh_process': b})
+                break
     return V.finish(floor_nontrivial=200 if tier == 'quick' else 2000, floor_evaluations=5000)
 
 
